@@ -15,6 +15,16 @@ by-reference queue (`by_ref_stack`), the function-result stash and the stack tra
   stack for every well-bracketed history without STATIC procedures, so "the variables in scope" =
   the frame of the nearest normal state at or below the top (`curVars`): while arguments are being
   collected — also inside nested calls in an argument list — names resolve in the CALLER's frame.
+* STATIC procedures and DIM SHARED variables.  `PushStaticStack(scope)` (`stop_collecting_arguments_static`): the
+  procedure's memory block is created by its first call (`statics f = none` before) and kept in
+  `static_memory_blocks`; every later call — also a recursive one, while the block is in use — applies the arguments
+  to the SAME block (`apply_arguments`: the parameter slots are overwritten, every other variable stays) and pushes a
+  state that refers to it: `CtxState.sframe f`, the block itself is `Vm.statics f`.  `PopStack` drops the state and
+  keeps the block (`is_static`).  `RootPath { shared: true }` resolves in `global_variables_mut()` = block 0 whatever
+  the top state is.  Block 0 holds the main module's own variables and the DIM SHARED ones under disjoint names
+  (a name of the main module is either DIM SHARED or not; the serialiser numbers the two kinds in separate tables,
+  the normaliser reads the flag of every `VarPathName`), and it is never addressed by position; the model keeps the
+  two parts apart: the bottom `frame` of `ctx` = the main module's own variables, `Vm.glob` = the DIM SHARED ones.
 * a frame is `List (Option Val)` indexed by slot: `none` = the variable was never created.
   `Variables::get_or_create` creates a missing variable with `default_value_for_name` = zero of the name's
   qualifier; the model reads `zeroOf t` for a missing slot (`t` comes with the path) and does not record the
@@ -60,6 +70,8 @@ abbrev Frame := List (Option Val)
 inductive CtxState where
   /-- a normal state with the variables of its memory block -/
   | frame (vars : Frame)
+  /-- a normal state on the persistent memory block of STATIC procedure `f` (`Vm.statics f`) -/
+  | sframe (f : Nat)
   /-- an argument-collecting state: the values pushed so far -/
   | args (vs : List Val)
 
@@ -74,17 +86,30 @@ def setVar (vars : Frame) (x : Nat) (v : Val) : Frame :=
   if x < vars.length then vars.set x (some v)
   else vars ++ List.replicate (x - vars.length) none ++ [some v]
 
-/-- `Context::variables`: the block of the top state = the frame of the nearest normal state -/
-def curVars : List CtxState → Option Frame
+/-- `Context::variables`: the block of the top state = the frame of the nearest normal state; `st` = the blocks of
+the STATIC procedures -/
+def curVars (st : Nat → Option Frame) : List CtxState → Option Frame
   | [] => none
   | .frame vs :: _ => some vs
-  | .args _ :: rest => curVars rest
+  | .sframe f :: _ => st f
+  | .args _ :: rest => curVars st rest
 
-/-- `Context::variables_mut` -/
+/-- `Context::variables_mut` when the current block is an ordinary one -/
 def modCur (f : Frame → Frame) : List CtxState → List CtxState
   | [] => []
   | .frame vs :: rest => .frame (f vs) :: rest
+  | .sframe g :: rest => .sframe g :: rest
   | .args a :: rest => .args a :: modCur f rest
+
+/-- the STATIC procedure whose block is the current one, if any -/
+def curStatic : List CtxState → Option Nat
+  | [] => none
+  | .frame _ :: _ => none
+  | .sframe f :: _ => some f
+  | .args _ :: rest => curStatic rest
+
+/-- `Variables::apply_arguments` on an existing block: argument `i` overwrites slot `i` -/
+def applyArgs (fr : Frame) (vs : List Val) : Frame := vs.map some ++ fr.drop vs.length
 
 structure Vm where
   pc : Nat
@@ -93,10 +118,14 @@ structure Vm where
   regStack : List Regs
   /-- `value_stack`, top first -/
   vals : List Val
-  /-- `var_path_stack` (root paths: slot and type), top first -/
-  paths : List (Nat × Ty)
-  /-- `Context::states`, top first; the last one is the global frame -/
+  /-- `var_path_stack` (root paths: variable and type), top first -/
+  paths : List (Var × Ty)
+  /-- `Context::states`, top first; the last one is the global frame (the main module's own variables) -/
   ctx : List CtxState
+  /-- the DIM SHARED variables (the part of memory block 0 addressed with `shared: true`) -/
+  glob : Frame
+  /-- `static_memory_blocks`: the persistent block of every STATIC procedure that has been called -/
+  statics : Nat → Option Frame
   out : Print.WritePrinter
   skipNewline : Bool
   data : List Val
@@ -113,8 +142,8 @@ structure Vm where
   trace : List Pos
 
 def Vm.init : Vm :=
-  { pc := 0, regs := Regs.new, regStack := [], vals := [], paths := [], ctx := [.frame []],
-    out := Print.WritePrinter.new, skipNewline := false, data := [], dataIdx := 0, queue := [], funRes := none,
+  { pc := 0, regs := Regs.new, regStack := [], vals := [], paths := [], ctx := [.frame []], glob := [],
+    statics := fun _ => none, out := Print.WritePrinter.new, skipNewline := false, data := [], dataIdx := 0, queue := [], funRes := none,
     rets := [], marks := [], trace := [] }
 
 inductive StepRes where
@@ -124,6 +153,26 @@ inductive StepRes where
   | stuck
 
 def setA (σ : Vm) (v : Val) : Vm := { σ with regs := { σ.regs with a := v } }
+
+/-- the variables in scope for a non-shared path -/
+def Vm.curFrame (σ : Vm) : Option Frame := curVars σ.statics σ.ctx
+
+/-- `resolve_name_ptr_mut` + read -/
+def Vm.getV (σ : Vm) (x : Var) (t : Ty) : Option Val :=
+  if x.shared then some (getVar σ.glob x.slot t)
+  else match σ.curFrame with
+    | some vars => some (getVar vars x.slot t)
+    | none => none
+
+/-- `*variables_mut().get_or_create(name) = v` on the current block -/
+def Vm.setLocal (σ : Vm) (i : Nat) (v : Val) : Vm :=
+  match curStatic σ.ctx with
+  | some f => { σ with statics := fun g => if g = f then (σ.statics f).map (fun fr => setVar fr i v) else σ.statics g }
+  | none => { σ with ctx := modCur (fun vars => setVar vars i v) σ.ctx }
+
+/-- `resolve_name_ptr_mut` + write -/
+def Vm.setV (σ : Vm) (x : Var) (v : Val) : Vm :=
+  if x.shared then { σ with glob := setVar σ.glob x.slot v } else σ.setLocal x.slot v
 
 def advance (σ : Vm) : Vm := { σ with pc := σ.pc + 1 }
 
@@ -191,9 +240,12 @@ def step (code : Code) (σ : Vm) : StepRes :=
       | v :: rest => .next (advance { setA σ v with vals := rest })
     | .varPath x t => .next (advance { σ with paths := (x, t) :: σ.paths })
     | .copyVarPathToA =>
-      match σ.paths, curVars σ.ctx with
-      | (x, t) :: _, some vars => .next (advance (setA σ (getVar vars x t)))
-      | _, _ => .stuck
+      match σ.paths with
+      | (x, t) :: _ =>
+        match σ.getV x t with
+        | some v => .next (advance (setA σ v))
+        | none => .stuck
+      | [] => .stuck
     | .popVarPath =>
       match σ.paths with
       | [] => .stuck
@@ -201,8 +253,7 @@ def step (code : Code) (σ : Vm) : StepRes :=
     | .copyAToVarPath =>
       match σ.paths with
       | [] => .stuck
-      | (x, _) :: rest =>
-        .next (advance { σ with ctx := modCur (fun vars => setVar vars x σ.regs.a) σ.ctx, paths := rest })
+      | (x, _) :: rest => .next (advance { σ.setV x σ.regs.a with paths := rest })
     | .label _ => .next (advance σ)
     | .jump a => .next { σ with pc := a }
     | .jumpIfFalse a =>
@@ -253,10 +304,29 @@ def step (code : Code) (σ : Vm) : StepRes :=
       match σ.ctx with
       | .args vs :: rest => .next (advance { σ with ctx := .frame (vs.map some) :: rest, trace := p :: σ.trace })
       | _ => .stuck
+    | .isDefined x =>
+      -- `variables().get_by_dim_name(..).is_some()` as a BASIC truth value
+      match σ.curFrame with
+      | some vars =>
+        match vars[x]? with
+        | some (some _) => .next (advance (setA σ (.int (-1))))
+        | _ => .next (advance (setA σ (.int 0)))
+      | none => .stuck
+    | .pushStatic f =>
+      -- `stop_collecting_arguments_static`: the block of `f` is created by the first call, re-used afterwards
+      match σ.ctx with
+      | .args vs :: rest =>
+        let blk := match σ.statics f with
+          | some fr => applyArgs fr vs
+          | none => vs.map some
+        .next (advance { σ with ctx := .sframe f :: rest, trace := p :: σ.trace,
+                                statics := fun g => if g = f then some blk else σ.statics g })
+      | _ => .stuck
     | .popStack =>
-      -- `Context::pop` + `stacktrace.remove(0)`
+      -- `Context::pop` + `stacktrace.remove(0)`; a STATIC block stays in `statics`
       match σ.ctx, σ.trace with
       | .frame _ :: c :: rest, _ :: tr => .next (advance { σ with ctx := c :: rest, trace := tr })
+      | .sframe _ :: c :: rest, _ :: tr => .next (advance { σ with ctx := c :: rest, trace := tr })
       | _, _ => .stuck
     | .pushRet a =>
       .next (advance { σ with rets := a :: σ.rets, marks := (σ.regStack.length + 1) :: σ.marks })
@@ -287,7 +357,7 @@ def step (code : Code) (σ : Vm) : StepRes :=
             .next (advance { σ with ctx := .frame (vs'.map some) :: rest, dataIdx := idx' })
       | _ => .stuck
     | .enqueue i =>
-      match curVars σ.ctx with
+      match σ.curFrame with
       | some vars =>
         match vars[i]? with
         | some (some v) => .next (advance { σ with queue := σ.queue ++ [v] })
@@ -298,7 +368,7 @@ def step (code : Code) (σ : Vm) : StepRes :=
       | [] => .stuck
       | v :: rest => .next (advance { setA σ v with queue := rest })
     | .stashResult x t =>
-      match curVars σ.ctx with
+      match σ.curFrame with
       | some vars => .next (advance { σ with funRes := some (getVar vars x t) })
       | none => .stuck
     | .unStash =>
